@@ -14,13 +14,18 @@ def InRange32 (n : Int) : Prop := -2147483648 ≤ n ∧ n ≤ 2147483647
 
 instance (n : Int) : Decidable (InRange32 n) := by unfold InRange32; infer_instance
 
+/-- A value a custom scalar's OWN parser produced — from some non-null JSON value (`parse`) or from some scalar literal
+    (`parse_literal`): "the scalar accepted it". Nothing else is known, or needs to be known, about a custom scalar. -/
+def CustomOK (reg : Reg) (n : String) (pv : PV) : Prop :=
+  (∃ v, v.isNull = false ∧ reg.customParse n v = .value pv) ∨ (∃ l, isScalarLit l = true ∧ reg.customParseLiteral n l = .value pv)
+
 mutual
 /-- `Conforms reg ty v`: the Python value `v` is a legal resolver argument for a position of type `ty`.
     * non-null ⇒ not `None`;
     * list ⇒ a list whose items conform;
     * `Int` ⇒ an integer of the closed signed 32-bit interval (Python: `bool` is a subclass of `int`,
       `True`/`False` are the integers 1/0);
-    * `Float` ⇒ a float; `String`/`ID` ⇒ a str; `Boolean` ⇒ a bool; custom scalar ⇒ anything;
+    * `Float` ⇒ a float; `String`/`ID` ⇒ a str; `Boolean` ⇒ a bool; custom scalar ⇒ a value its own parser accepted (`CustomOK`);
     * enum ⇒ the INTERNAL value of one of its names;
     * input object ⇒ a dict, in field order keyed by the PYTHON names, every present field conforming,
       declared defaults filled in, an entry absent only for a nullable field without default, nothing else. -/
@@ -34,7 +39,7 @@ inductive Conforms (reg : Reg) : Ty → PV → Prop
   | string {n : String} {s : String} : reg.get? n = some .string → Conforms reg (.named n) (.str s)
   | boolean {n : String} {b : Bool} : reg.get? n = some .boolean → Conforms reg (.named n) (.bool b)
   | id {n : String} {s : String} : reg.get? n = some .id → Conforms reg (.named n) (.str s)
-  | custom {n : String} {pv : PV} : reg.get? n = some .custom → Conforms reg (.named n) pv
+  | custom {n : String} {pv : PV} : reg.get? n = some .custom → CustomOK reg n pv → Conforms reg (.named n) pv
   | enum {n : String} {vs : List (String × PV)} {p : String × PV} :
       reg.get? n = some (.enum vs) → p ∈ vs → Conforms reg (.named n) p.2
   | input {n : String} {fs : List InField} {kvs : List (String × PV)} :
@@ -50,6 +55,7 @@ end
 
 /-- well-formed registry: field types are well-formed type expressions, declared defaults conform to
     their types (a schema built from SDL coerces them with `value_from_ast`), enum internal values are not `None`,
+    a custom scalar's parser never answers `None` to a non-null input (the counterpart of `enumNotNone` for user code),
     the python names of one input object's fields are pairwise distinct (otherwise two fields write the same dict key;
     the model follows that collision, `dictOfAssignments`, but then no dict can hold both fields). -/
 structure RegOK (reg : Reg) : Prop where
@@ -57,6 +63,7 @@ structure RegOK (reg : Reg) : Prop where
   defaultsConform : ∀ n fs, reg.get? n = some (.input fs) → ∀ f, f ∈ fs → ∀ d, f.default = some d → Conforms reg f.type d
   enumNotNone : ∀ n vs, reg.get? n = some (.enum vs) → ∀ p, p ∈ vs → p.2.isNone = false
   pyNamesDistinct : ∀ n fs, reg.get? n = some (.input fs) → (fs.map (fun f => f.pyName)).Nodup
+  customNotNone : ∀ n pv, reg.get? n = some .custom → CustomOK reg n pv → pv.isNone = false
 
 /-- argument definitions of a field / directive: same three conditions -/
 structure ArgsOK (reg : Reg) (defs : List InField) : Prop where
@@ -65,7 +72,7 @@ structure ArgsOK (reg : Reg) (defs : List InField) : Prop where
   pyNamesDistinct : (defs.map (fun d => d.pyName)).Nodup
 
 def Lit.isLeaf : Lit → Bool
-  | .null => true | .int _ => true | .float _ _ => true | .str _ => true | .bool _ => true | .enum _ => true
+  | .null => true | .int _ => true | .float _ => true | .str _ => true | .bool _ => true | .enum _ => true
   | _ => false
 
 /-- The variables used inside literal `l` at a position of type `ty` hold values that fit that position
@@ -104,30 +111,40 @@ inductive VarsAllowed (reg : Reg) (defs : List VarDef) : Ty → Bool → Lit →
       (∀ f, f ∈ fs → ∀ l, lookupLast f.name lkvs = some l → VarsAllowed reg defs f.type f.default.isSome l) →
       VarsAllowed reg defs ty hasDefault (.obj lkvs)
 
+/-- the literal spelling of a JSON scalar, type-blind (what a custom scalar's `parse_literal` is handed) -/
+inductive LeafSpell : JV → Lit → Prop
+  | int {k : Int} : LeafSpell (.int k) (.int k)
+  | float {t : String} : LeafSpell (.float t) (.float t)
+  | str {s : String} : LeafSpell (.str s) (.str s)
+  | bool {b : Bool} : LeafSpell (.bool b) (.bool b)
+
+/-- A custom scalar whose two parsers agree on every JSON scalar and its literal spelling (same value, or both refuse).
+    This is the scalar AUTHOR's obligation; `default_scalar` meets it on strings and booleans only (`parse` is the identity,
+    `parse_literal` hands over the literal's TEXT: `5` vs `"5"`). -/
+def CustomAgree (reg : Reg) : Prop :=
+  ∀ n j l, reg.get? n = some .custom → LeafSpell j l → (reg.customParseLiteral n l).toR.toOption = (reg.customParse n j).toR.toOption
+
 mutual
 /-- `AstOfJson reg ty j l`: `l` is the literal spelling (`astOfJson`) of the JSON value `j` at a position of
     type `ty`, and `j` is of the NATURAL JSON kind for `ty`:
     integers for `Int`; integers and floats for `Float`; strings for `String`; booleans for `Boolean`;
-    strings and integers for `ID`; strings and booleans for a custom scalar; a string (spelled as an enum
+    strings and integers for `ID`; any JSON scalar for a custom scalar; a string (spelled as an enum
     value) for an enum; an array, or a single non-array value, for a list; an object for an input object. -/
 inductive AstOfJson (reg : Reg) : Ty → JV → Lit → Prop
   | null {ty : Ty} : AstOfJson reg ty .null .null
   | nonNull {t : Ty} {j : JV} {l : Lit} : t.isNonNull = false → AstOfJson reg t j l → AstOfJson reg (.nonNull t) j l
   | intInt {n : String} {k : Int} : reg.get? n = some .int → AstOfJson reg (.named n) (.int k) (.int k)
   | floatInt {n : String} {k : Int} : reg.get? n = some .float → AstOfJson reg (.named n) (.int k) (.int k)
-  | floatFloat {n : String} {t : String} {i : Option Int} {c : FCls} : reg.get? n = some .float →
-      AstOfJson reg (.named n) (.float t i c) (.float t c)
-  | string {n : String} {s : String} {a : Option Int} {b : Option (String × Option Int × FCls)} : reg.get? n = some .string →
-      AstOfJson reg (.named n) (.str s a b) (.str s)
+  | floatFloat {n : String} {t : String} : reg.get? n = some .float → AstOfJson reg (.named n) (.float t) (.float t)
+  | string {n : String} {s : String} : reg.get? n = some .string →
+      AstOfJson reg (.named n) (.str s) (.str s)
   | boolean {n : String} {b : Bool} : reg.get? n = some .boolean → AstOfJson reg (.named n) (.bool b) (.bool b)
-  | idStr {n : String} {s : String} {a : Option Int} {b : Option (String × Option Int × FCls)} : reg.get? n = some .id →
-      AstOfJson reg (.named n) (.str s a b) (.str s)
+  | idStr {n : String} {s : String} : reg.get? n = some .id →
+      AstOfJson reg (.named n) (.str s) (.str s)
   | idInt {n : String} {k : Int} : reg.get? n = some .id → AstOfJson reg (.named n) (.int k) (.int k)
-  | customStr {n : String} {s : String} {a : Option Int} {b : Option (String × Option Int × FCls)} : reg.get? n = some .custom →
-      AstOfJson reg (.named n) (.str s a b) (.str s)
-  | customBool {n : String} {b : Bool} : reg.get? n = some .custom → AstOfJson reg (.named n) (.bool b) (.bool b)
-  | enum {n : String} {vs : List (String × PV)} {s : String} {a : Option Int} {b : Option (String × Option Int × FCls)} :
-      reg.get? n = some (.enum vs) → AstOfJson reg (.named n) (.str s a b) (.enum s)
+  | custom {n : String} {j : JV} {l : Lit} : reg.get? n = some .custom → LeafSpell j l → AstOfJson reg (.named n) j l
+  | enum {n : String} {vs : List (String × PV)} {s : String} :
+      reg.get? n = some (.enum vs) → AstOfJson reg (.named n) (.str s) (.enum s)
   | list {t : Ty} {js : List JV} {ls : List Lit} : AstOfJsonL reg t js ls → AstOfJson reg (.list t) (.list js) (.list ls)
   | single {t : Ty} {j : JV} {l : Lit} : (∀ js, j ≠ .list js) → AstOfJson reg t j l → AstOfJson reg (.list t) j l
   | obj {n : String} {fs : List InField} {kvs : List (String × JV)} {lkvs : List (String × Lit)} :
